@@ -60,7 +60,7 @@ PROBES = ["turn_change", "restore_with_progress", "extra_ball", "early_end_game"
           "hold_window", "lb_complete", "lb_timeout", "dl_fired", "timer_tick", "m2_restart_next_ball",
           "histories_differ", "may_applied", "may_skipped", "op_on_timer_deadline", "mode_started_while_ball_ending",
           "sq_step", "sq_step_after_game", "sq_pending_at_ball_end", "sg2_rotate_enabled", "sg2_rotate_disabled",
-          "timer_resume", "timer_pause_pending_at_unload", "mode_stopping_at_ball_ending"]
+          "timer_resume", "timer_pause_pending_at_unload", "q_ach_changed_by_group", "group_event_without_m2", "mode_stopping_at_ball_ending"]
 REAL = ["mpf.core.player.Player", "mpf.modes.game.code.game.Game", "mpf.core.mode.Mode / ModeController",
         "mpf.devices.logic_blocks (Counter, Accrual, Sequence)", "mpf.devices.shot / shot_group / shot_profile",
         "mpf.devices.achievement", "mpf.devices.timer", "mpf.core.enable_disable_mixin",
@@ -110,6 +110,8 @@ FAMILIES = [
     ("ach", 3, ["ev_ach1_start", "ev_ach1_stop", "ev_ach1_complete", "ev_ach1_disable", "ev_ach1_enable", "ev_ach1_reset",
                 "ev_ach1_select", "ev_ach1_unselect", "ev_ach2_start", "ev_ach2_stop", "ev_ach2_complete",
                 "ev_ach2_enable", "ev_ach2_enable", "ev_ach2_disable"]),
+    ("ag", 3, ["ev_ag_rotate", "ev_ag_rotate", "ev_ag_rotate_left", "ev_ag_start", "ev_ag_enable", "ev_ag_disable",
+               "ev_q_a_complete", "ev_q_b_stop"]),
     ("timer", 2, ["ev_t1_start", "ev_t1_start", "ev_t1_stop", "ev_t1_add", "ev_t1_jump", "ev_t1_pause", "ev_t1_pause"]),
     ("vars", 4, ["ev_score", "ev_score", "ev_float", "ev_str1", "ev_str2", "ev_int_set", "ev_int_add", "ev_new_var", "ev_eb", "ev_gift"]),
     ("m2", 3, ["ev_m2_start", "ev_m2_start", "ev_m2_stop", "ev_c_m2", "ev_c_m2", "ev_m2_str", "ev_score"]),
@@ -131,6 +133,8 @@ COMBOS = [
     ["ev_sg2_rot_on", "sw:s_sh_a", "ev_sg2_rotate", "ev_sg2_rotate"],
     ["sw:s_sh_b", "ev_sg2_rotate"],
     ["ev_t1_start", "ev_t1_pause"],
+    ["ev_m2_start", "ev_ag_rotate", "ev_ag_start"],
+    ["ev_ag_rotate", "ev_ag_rotate", "ev_ag_start"],
     ["ev_t1_pause"],
 ]
 DTS = [0.0, 0.0, 0.001, 0.01, 0.05, 0.1, 0.25, 0.3, 0.7, 1.5]
@@ -525,6 +529,11 @@ class Harness:
             return
         if mode.name == "m1":
             self.sync_dl("unload")
+        if mode.name == "m2" and self.m.game is not None:
+            # changes the group made through events we do not hook must be taken over while m2 is still loaded
+            diff = self.compare(self.players, self.dev)
+            if diff is not None and diff[1].startswith("achievements of m2"):
+                self.report_diff(diff, "unload:m2")
 
     def on_unload(self, mode):
         if self.tainted:
@@ -833,6 +842,9 @@ class Harness:
             ctx.probe("dispatch_transient")
         elif DEAD in kinds:
             ctx.probe("dispatch_dead_in_game")
+        if name.startswith("ev_ag_") and self.m.game is not None and self.dev["attached"]["m2"] is None \
+                and cls["m1"] == LIVE:
+            ctx.probe("group_event_without_m2")
         if name == "ev_sg2_rotate" and effs:
             ctx.probe("sg2_rotate_enabled" if self.dev["sg2_rot"] else "sg2_rotate_disabled")
         may = [e for e in effs if not e[0]]
@@ -889,6 +901,20 @@ class Harness:
                 players[num] = M.new_player(num)
             exp = M.canon_shadow(players[num])
             act = canon_actual(p)
+            qe, qa = _split_q(exp), _split_q(act)
+            if qe != qa:
+                # R-group-havoc: what the achievement group does to q_a/q_b is not modelled.  Their state may change
+                # in any way - but only for the player who is up and only while their mode (m2) is loaded for him.
+                if num == self.cur_pnum() and dev["attached"]["m2"] == num and players[num]["ach"] is not None \
+                        and isinstance(p.vars.get("achievements"), dict):
+                    for n in M.Q_ACH:
+                        if n in p.vars["achievements"]:
+                            players[num]["ach"][n] = list(p.vars["achievements"][n])
+                        else:
+                            players[num]["ach"].pop(n, None)
+                    self.ctx.probe("q_ach_changed_by_group")
+                else:
+                    return (num, "achievements of m2 (q_a/q_b)", qe, qa)
             if exp != act:
                 for k in sorted(set(exp) | set(act)):
                     if exp.get(k) != act.get(k):
@@ -1012,6 +1038,10 @@ class Harness:
                 if st is not None and name != "c_dl":
                     need(d.value == st[0] and bool(d.enabled) == st[1] and bool(d.completed) == st[2], name,
                          st, [d.value, d.enabled, d.completed])
+        if mn == "m2":
+            for n in M.Q_ACH:
+                a = m.achievements[n]
+                need(a._player is p, n + " player", "current player", a._player)
         if mn != "m1":
             return
         for n in M.SHOT_ORDER:
@@ -1260,6 +1290,15 @@ class Harness:
         elif kind == "arm":
             self.armed.append({"hook": op["hook"], "prio": op["prio"], "events": list(op["events"])})
         self.schedule_next()
+
+
+def _split_q(canon):
+    """Take the m2 achievements out of a canonical player dict (in place); return them."""
+    a = canon.get("achievements")
+    if not a or a[0] != "ach":
+        return ()
+    canon["achievements"] = ("ach", tuple(e for e in a[1] if e[0] not in M.Q_ACH))
+    return tuple(e for e in a[1] if e[0] in M.Q_ACH)
 
 
 class _Null:
